@@ -3,7 +3,10 @@
 package c11
 
 import (
+	"encoding/base64"
+	"encoding/json"
 	"fmt"
+	"runtime"
 	"sort"
 	"strings"
 	"sync"
@@ -112,38 +115,12 @@ func TestConcurrentPipelines(t *testing.T) {
 			jobs[i] = drawJob(rt)
 		}
 		workers := rapid.IntRange(2, 32).Draw(rt, "goroutines")
-		// sequential reference
-		ref := make([]string, n)
-		for i, j := range jobs {
-			ref[i] = j.run()
-		}
-		// concurrent run behind a start barrier
-		got := make([]string, n)
-		var wg sync.WaitGroup
-		start := make(chan struct{})
-		next := make(chan int, n)
-		for i := range jobs {
-			next <- i
-		}
-		close(next)
-		for w := 0; w < workers; w++ {
-			wg.Add(1)
-			go func() {
-				defer wg.Done()
-				<-start
-				for i := range next {
-					got[i] = jobs[i].run()
-				}
-			}()
-		}
-		close(start)
-		wg.Wait()
+		// sequential reference, then the same jobs on the goroutines behind a start barrier
+		i, ref, got := runConcurrently(jobs, workers)
 		harness.EvalN(2 * n)
-		for i := range jobs {
-			if got[i] != ref[i] {
-				harness.Fail(rt, "result-differs", jobs[i].src, map[string]string{"version": jobs[i].ver.String(), "pipeline": fmt.Sprint(jobs[i].pipe), "jobs": fmt.Sprint(n), "goroutines": fmt.Sprint(workers)},
-					"job %d of %d (version %s, pipeline bits %d) gives a different result when run concurrently on %d goroutines than when run alone: %s\nsource: %q", i, n, jobs[i].ver, jobs[i].pipe, workers, firstDiff(ref[i], got[i]), jobs[i].src)
-			}
+		if i >= 0 {
+			harness.Fail(rt, "result-differs", jobs[i].src, map[string]string{"version": jobs[i].ver.String(), "pipeline": fmt.Sprint(jobs[i].pipe), "jobs": jobsJSON(jobs), "goroutines": fmt.Sprint(workers)},
+				"job %d of %d (version %s, pipeline bits %d) gives a different result when run concurrently on %d goroutines than when run alone: %s\nsource: %q", i, n, jobs[i].ver, jobs[i].pipe, workers, firstDiff(ref, got), jobs[i].src)
 		}
 		fams, pipes := map[bool]bool{}, map[int]bool{}
 		for _, j := range jobs {
@@ -202,9 +179,181 @@ func TestParseTwice(t *testing.T) {
 	})
 }
 
+// TestParseHistory: a parse is a function of its input and configuration only. A drawn history of
+// parses of a few different jobs (other inputs, other versions, with and without handler), with
+// garbage collections in between (which empty sync.Pool-style caches), must give every job the same
+// trees and errors each time it comes round, and a tree kept from an earlier parse must not change
+// while later parses run (objects handed out by a parser's pools stay valid after the parser is gone).
+func TestParseHistory(t *testing.T) {
+	harness.Check(t, "parse-history", 800, 60000, func(rt *rapid.T) {
+		n := rapid.IntRange(2, 5).Draw(rt, "jobs")
+		jobs := make([]job, n)
+		for i := range jobs {
+			jobs[i] = drawJob(rt)
+			jobs[i].pipe = 0
+		}
+		type kept struct {
+			res  string
+			root ast.Vertex
+			fp   string
+		}
+		first := map[int]*kept{}
+		steps := rapid.IntRange(3, 14).Draw(rt, "steps")
+		hist := ""
+		for s := 0; s < steps; s++ {
+			if rapid.IntRange(0, 4).Draw(rt, "gc") == 0 {
+				runtime.GC()
+				runtime.GC()
+				hist += " gc"
+				continue
+			}
+			i := rapid.IntRange(0, n-1).Draw(rt, "job")
+			j := jobs[i]
+			hist += fmt.Sprintf(" %d(%s)", i, j.ver)
+			r := px.Parse(append([]byte{}, j.src...), j.ver, !j.nocb)
+			harness.Eval()
+			if r.Panic != "" {
+				return
+			}
+			res := px.ErrString(r.Errs)
+			if astx.IsNil(r.Root) {
+				res += "nil root"
+			} else {
+				res += astx.Fingerprint(r.Root)
+			}
+			mt := map[string]string{"version": j.ver.String(), "history": hist, "jobs": jobsJSON(jobs)}
+			if k, ok := first[i]; ok {
+				if k.res != res {
+					harness.Fail(rt, "history-dependent", j.src, mt, "after history%s, job %d (version %s) parses differently than the first time it was parsed in this history: %s\nsource: %q", hist, i, j.ver, firstDiff(k.res, res), j.src)
+				}
+			} else {
+				k := &kept{res: res, root: r.Root}
+				if !astx.IsNil(r.Root) {
+					k.fp = astx.Fingerprint(r.Root)
+				}
+				first[i] = k
+			}
+			for q, k := range first {
+				if !astx.IsNil(k.root) && astx.Fingerprint(k.root) != k.fp {
+					harness.Fail(rt, "kept-tree-changed", jobs[q].src, mt, "after history%s the tree kept from the first parse of job %d has changed: %s", hist, q, firstDiff(k.fp, astx.Fingerprint(k.root)))
+				}
+			}
+		}
+		if strings.Contains(hist, "gc") && len(first) >= 2 {
+			harness.NonTrivial([]byte(hist+string(jobs[0].src)), "parse history:"+hist)
+		}
+		harness.Class("parse-history")
+	})
+}
+
+type jobRec struct {
+	Src  string `json:"src_b64"`
+	Ver  string `json:"version"`
+	Pipe int    `json:"pipeline"`
+	NoCB bool   `json:"no_handler"`
+}
+
+func jobsJSON(jobs []job) string {
+	var out []jobRec
+	for _, j := range jobs {
+		out = append(out, jobRec{base64.StdEncoding.EncodeToString(j.src), j.ver.String(), j.pipe, j.nocb})
+	}
+	b, _ := json.Marshal(out)
+	return string(b)
+}
+
+// runConcurrently runs the job set sequentially and then on the given number of goroutines behind a
+// start barrier; it returns the index of the first job whose results differ (-1 if none).
+func runConcurrently(jobs []job, workers int) (int, string, string) {
+	n := len(jobs)
+	ref := make([]string, n)
+	for i, j := range jobs {
+		ref[i] = j.run()
+	}
+	got := make([]string, n)
+	var wg sync.WaitGroup
+	start := make(chan struct{})
+	next := make(chan int, n)
+	for i := range jobs {
+		next <- i
+	}
+	close(next)
+	for w := 0; w < workers; w++ {
+		wg.Add(1)
+		go func() {
+			defer wg.Done()
+			<-start
+			for i := range next {
+				got[i] = jobs[i].run()
+			}
+		}()
+	}
+	close(start)
+	wg.Wait()
+	for i := range jobs {
+		if got[i] != ref[i] {
+			return i, ref[i], got[i]
+		}
+	}
+	return -1, "", ""
+}
+
+// TestReplay re-runs a recorded job set (meta.jobs) concurrently, several times: the race detector and
+// the result comparison are the same as in the generated runs. A recorded parse history is re-run in
+// its recorded order.
 func TestReplay(t *testing.T) {
-	if harness.ReplayPath() == "" {
+	path := harness.ReplayPath()
+	if path == "" {
 		t.Skip("no VERIF_REPLAY")
 	}
-	t.Skip("job sets replay through the rapid seed recorded in the replay file; race reports are kept as the shard log")
+	vi, _, err := harness.LoadReplay(path)
+	if err != nil {
+		t.Skip("not a JSON replay file (race reports are kept as the shard log): " + err.Error())
+	}
+	var recs []jobRec
+	if err := json.Unmarshal([]byte(vi.Meta["jobs"]), &recs); err != nil || len(recs) == 0 {
+		t.Skip("the replay file carries no job set")
+	}
+	var jobs []job
+	for _, r := range recs {
+		src, _ := base64.StdEncoding.DecodeString(r.Src)
+		var v px.Ver
+		fmt.Sscanf(r.Ver, "%d.%d", &v.Major, &v.Minor)
+		jobs = append(jobs, job{src: src, ver: v, pipe: r.Pipe, nocb: r.NoCB})
+	}
+	if h := vi.Meta["history"]; h != "" {
+		first := map[int]string{}
+		for _, f := range strings.Fields(h) {
+			if f == "gc" {
+				runtime.GC()
+				runtime.GC()
+				continue
+			}
+			var i int
+			fmt.Sscanf(f, "%d(", &i)
+			if i < 0 || i >= len(jobs) {
+				continue
+			}
+			j := jobs[i]
+			j.pipe = 0
+			res := j.run()
+			harness.Eval()
+			if prev, ok := first[i]; ok && prev != res {
+				harness.Failf(t, "parse-history/history-dependent", j.src, vi.Meta, "job %d parses differently than the first time in the recorded history: %s", i, firstDiff(prev, res))
+				return
+			} else if !ok {
+				first[i] = res
+			}
+		}
+		return
+	}
+	workers := 8
+	fmt.Sscan(vi.Meta["goroutines"], &workers)
+	for round := 0; round < 20; round++ {
+		harness.EvalN(2 * len(jobs))
+		if i, ref, got := runConcurrently(jobs, workers); i >= 0 {
+			harness.Failf(t, "concurrent-pipelines/result-differs", jobs[i].src, vi.Meta, "job %d gives a different result when run concurrently: %s", i, firstDiff(ref, got))
+			return
+		}
+	}
 }
